@@ -201,6 +201,10 @@ def check_case(case) -> Outcome:
             msg = P.compare(inside, v)
             if msg is not None:
                 fails.append(Failure(f"region-values:{cls}", f"{t.path}: {msg}"))
+        elif cls == "existing-dtype" and t.sink.get("lossy"):
+            # narrower target: the image is the source's values as cast to the target's dtype
+            if not np.array_equal(got, exp):
+                fails.append(Failure(f"target-values:{cls}", f"{t.path}: target does not hold the source's values cast to {exp.dtype}"))
         else:
             msg = P.compare(got, v)
             if msg is not None:
